@@ -33,14 +33,14 @@ def _sc(n):
 SEGMENTS = {
     "quick": [("ieq_small", 27), ("ieq4", 543), ("ieq_rand", _sc(400)), ("closure_exh", 193),
               ("closure_rand", _sc(220)), ("indep", _sc(600)), ("imap", _sc(400))],
-    "thorough": [("ieq_small", 27), ("ieq4", 543), ("ieq_rand", _sc(2500)), ("closure_exh", 193),
-                 ("closure_rand", _sc(2500)), ("indep", _sc(3500)), ("imap", _sc(1800))],
+    "thorough": [("ieq_small", 27), ("ieq4", 543), ("ieq_rand", _sc(6000)), ("closure_exh", 193),
+                 ("closure_rand", _sc(6000)), ("indep", _sc(8000)), ("imap", _sc(3500))],
 }
 PLAN = {
     "quick": {"cases": sum(c for _, c in SEGMENTS["quick"]), "hashseeds": 3, "shards": 5, "timeout": 420,
               "min_nontrivial": int(900 * min(1.0, _SCALE))},
     "thorough": {"cases": sum(c for _, c in SEGMENTS["thorough"]), "hashseeds": 8, "shards": 2, "timeout": 3000,
-                 "min_nontrivial": int(5000 * min(1.0, _SCALE)), "exhaustive": False},
+                 "min_nontrivial": int(9000 * min(1.0, _SCALE)), "exhaustive": False},
 }
 RULE = ("seven segments, case index -> segment. ieq_small: every ordered pair of DAGs on 1, 2, 3 labelled nodes "
         "(1 + 9 + 625, exhaustive); ieq4: one case per 4-node DAG G1 (543), G1 against all 543 (294 849 ordered pairs, "
